@@ -165,6 +165,15 @@ CLAIMS = {
              'operations; packets per peer in order, handler/callback invocations, API results or exception types, '
              'contained exceptions, published messages and final state must be identical.',
         ref='5 C14', technique='solver-driven script enumeration (CrossHair+z3); differential threaded vs asyncio on the real classes'),
+    'C19': dict(
+        text='Systematic enumeration, driven by the solver, of all schedules (at the granularity of event and buffer '
+             'operations, plus the instant a wait returns) of a producer thread driving the handlers that the real '
+             'SimpleClient.connect() registers against a consumer thread calling the real receive()/emit(), over seven '
+             'scenarios (arrivals, bursts, loss and reconnection, final disconnect); and all await-point interleavings of '
+             'the real AsyncSimpleClient. Safety claims only: order, exactly-once, no event lost, TimeoutError only while '
+             'nothing completed is buffered, DisconnectedError only after the end, emit waits out a reconnection. The '
+             'schedule vector is the only symbolic input (low solver leverage, same engine and verdict discipline).',
+        ref='5 C19', technique='solver-driven schedule enumeration (CrossHair+z3 over baton threads / miniloop) on the real SimpleClient'),
 }
 
 PENDING = 'check not built yet in this tree (work in progress); no claim is made'
